@@ -1,6 +1,7 @@
 package dawn
 
 import (
+	"fmt"
 	"math/rand/v2"
 	"path/filepath"
 	"sort"
@@ -512,6 +513,25 @@ func c02Exec(scAny any, c *simcheck.Ctx) *simcheck.Violation {
 		}
 		if op.Op == "build" && h.p.resolve(op.Label) == nil {
 			continue
+		}
+		if op.Op == "build" && op.N == 1 && !op.Reload && !op.Keep && !op.Dry && !op.Always && currentLabel == op.Label && len(brokenNow) == 0 &&
+			c.Tapes.Get(fmt.Sprintf("child%d", i)).Intn(4) == 0 {
+			// "across process restarts": this rebuild is done by another OS process
+			if cr, ok := h.buildInChild(i, op); ok {
+				if cr.Failure != "" || cr.LoadErr != "" || cr.RunErr != "" {
+					c.St.Count("child_build_failed", 1)
+					return nil
+				}
+				c.St.Count("noop_rebuilds_checked", 1)
+				forced := alwaysDownstream(h.p, op.Label)
+				for _, l := range cr.Started {
+					if !forced[l] {
+						return simcheck.V("spurious-rebuild", "rebuilding %s in another OS process after only no-op edits executed %s (dawn's reason: %q)", op.Label, l, cr.Reasons[l])
+					}
+				}
+				continue
+			}
+			c.St.Count("child_process_unavailable", 1)
 		}
 		res := h.build(i, op, h.pc, nil)
 		if v := procFailure(res); v != nil {
